@@ -526,14 +526,21 @@ class Cache:
                 'with a newer version of the file_builder library. Try '
                 'upgrading.'.format(filename))
 
+        # FileBuilder.clean doesn't use the created directories until after it
+        # has removed the output files, so check them now
+        created_dirs = cache_json['createdDirs']
+        if (not isinstance(created_dirs, list) or
+                not all(isinstance(dir_, str) for dir_ in created_dirs)):
+            raise RuntimeError(
+                'Error parsing cache file {:s}'.format(filename))
+
         files = {}
         subbuilds = {}
         Cache._operations_from_json(
             cache_json['rootOperations'], files, subbuilds)
         return Cache(
-            cache_json['buildName'], files, subbuilds,
-            set(cache_json['createdDirs']), cache_json['funcVersions'],
-            cache_json['operationVersions'], False)
+            cache_json['buildName'], files, subbuilds, set(created_dirs),
+            cache_json['funcVersions'], cache_json['operationVersions'], False)
 
     @staticmethod
     def _create_empty(build_name, func_versions, is_mutable):
